@@ -154,14 +154,24 @@ def _choice_divergence(events, line):
     TransactionSet at `line`, the owners / leaves the transaction involves, and whether the winning case of a
     member's choice changed with this transaction; None when the event is not a successful TransactionSet"""
     e = events[line - 1]
-    if e["ev"] != "txset" or e["ret"] != "ok" or e["dry"]:
+    if e["ev"] == "txset":
+        if e["ret"] != "ok" or e["dry"]:
+            return None
+        intents = e["intents"]
+    elif e["ev"] in ("cancel", "wait") and e["ret"] == "ok" and e["sets"]:
+        # a rollback is a transaction of the intents of the transaction it takes back
+        setev, _ = opening_set(events, line)
+        if setev is None:
+            return None
+        intents = setev["intents"]
+    else:
         return None
     pre = pre_state(events, line)
     if pre is None:
         return None
     leaves = _uni()
-    owners = {i["o"] for i in e["intents"]}
-    involved = {q[0] for i in e["intents"] for q in i["upd"]} | {x[2] for x in pre["intended"] if x[0] in owners}
+    owners = {i["o"] for i in intents}
+    involved = {q[0] for i in intents for q in i["upd"]} | {x[2] for x in pre["intended"] if x[0] in owners}
     dev = fun(e["post"]["device"])
     best, win = _choice_state(e["post"]["intended"], leaves)
     bad = []
@@ -306,7 +316,39 @@ def w_stale_presence_left_over(events, line):
     return all(l not in post_dev for l in really_removed)
 
 
+def w_noop_heals_choice_divergence(events, line):
+    """C09: the verbatim re-submission is not a no-op only because it sends choice members of the winning case that
+    the device lacked before it - a divergence left behind by KF-C08-1 at an earlier step of the behaviour (the
+    re-submitted intent is the uninvolved holder of the winning case: loading it repairs the device)."""
+    e = events[line - 1]
+    if e["ev"] != "txset" or e["ret"] != "ok" or e["dry"]:
+        return False
+    pre = pre_state(events, line)
+    if pre is None:
+        return False
+    leaves = _uni()
+    pre_dev = fun(pre["device"])
+    sent = [q for s_ in e["sets"] for q in s_["upd"]]
+    if not sent or any(s_["delraw"] for s_ in e["sets"]):
+        return False
+    for l, v in sent:
+        if not leaves.get(l, {}).get("choice") or pre_dev.get(l) == v:
+            return False
+        # the latest earlier step that left l divergent must be explained by KF-C08-1
+        j, ok = line - 1, False
+        while j >= 1 and events[j - 1]["b"] == e["b"]:
+            d = _choice_divergence(events, j)
+            if d is not None and any(l2 == l for (l2, o) in d[0]):
+                ok = w_choice_winner_uninvolved(events, j)
+                break
+            j -= 1
+        if not ok:
+            return False
+    return True
+
+
 WITNESS = {
+    "noop_heals_choice_divergence": w_noop_heals_choice_divergence,
     "stale_presence_left_over": w_stale_presence_left_over,
     "stale_presence_mandatory": w_stale_presence_mandatory,
     "xml_leaflist_replace": w_xml_leaflist_replace,
